@@ -46,6 +46,15 @@ def _same_fate(m, i):
 
 GATE = C.Kind("datagram", impl=BH.parse_direct, model=lambda h: "dgram " + h, judge=_judge, classify=_cls, compare=_same_fate,
               nontrivial=lambda h, o: (_cls(h, o), h[:8], h[148:152]))
+def _fate_only(out):
+    return out.split(" ", 1)[0]
+
+
+GATE_VIA = C.Kind("datagram-arriving-at-a-running-bridge", impl=lambda h: BH.bridge_fate(h), model=lambda h: "dgram " + h,
+                  judge=lambda h, o: _judge(h, o if not o.startswith("raise") else "raise " + o[6:]), classify=_cls,
+                  compare=lambda m, i: _fate_only(m) == _fate_only(i) or (m.startswith("raise") and i.startswith("raise")),
+                  nontrivial=lambda h, o: (_cls(h, o), h[:8], h[148:152]))
+GATE_VIA.debug_rerun = False
 GATE_BUF = C.Kind("datagram-in-a-reused-buffer", impl=lambda h: BH.parse_direct(h, "buffer"), model=lambda h: "dgram " + h, judge=_judge,
                   classify=_cls, compare=_same_fate, nontrivial=lambda h, o: (_cls(h, o), h[:8], h[148:152]))
 GATE_DBG = C.Kind("datagram-with-debug-logging", impl=lambda h: BH.parse_direct(h, "debug"), model=lambda h: "dgram " + h, judge=_judge,
@@ -67,7 +76,7 @@ def _impl_kept(a):
 KEPT = C.Kind("gate-of-a-parser-kept-over-a-refilled-buffer", impl=_impl_kept,
               judge=lambda a, o: [(f"c06gate {a[0]}", o.split(" ")[0]), (f"c06gate {a[1]}", o.split(" ")[-1])],
               classify=lambda a, o: o, nontrivial=lambda a, o: (o, a[0][:6], a[1][:6], len(a[0]), len(a[1])))
-KINDS = {"gate-of-a-parser-kept-over-a-refilled-buffer": KEPT, "datagram": GATE, "datagram-in-a-reused-buffer": GATE_BUF, "datagram-with-debug-logging": GATE_DBG}
+KINDS = {"datagram-arriving-at-a-running-bridge": GATE_VIA, "gate-of-a-parser-kept-over-a-refilled-buffer": KEPT, "datagram": GATE, "datagram-in-a-reused-buffer": GATE_BUF, "datagram-with-debug-logging": GATE_DBG}
 
 
 def _lengths(rng):
@@ -138,6 +147,9 @@ def streams(ctx):
     gen = _codes(rng, [rng.randrange(65536) for _ in range(ctx.n(60, 600))] + [int(c, 16) for c in _known_codes()])
     for i, h in enumerate(gen):
         alt += [h, rng.choice([rng.randbytes(len(h) // 2).hex(), (b"\xfe\xf1" + rng.randbytes(len(h) // 2 - 2)).hex(), h[:-2], "-"])]
+    # the same kinds of datagram ARRIVING at a running bridge on loopback (what the bridge adds around the parser is part of the gate)
+    ctx.run_cases(GATE_VIA, "datagrams-arriving-at-a-running-bridge", alt[:ctx.n(60, 600)] + _codes(rng, [0x9999, 0x0000, 0xffff]), exhaustive=False,
+                  sample_every=23)
     ctx.run_cases(GATE_BUF, "datagrams-in-one-reused-receive-buffer", alt, exhaustive=False, sample_every=97)
     ctx.run_cases(KEPT, "one-parser-object-over-a-refilled-buffer", [(alt[i], alt[i + 1]) for i in range(0, len(alt) - 1)], exhaustive=False,
                   sample_every=97)
